@@ -312,6 +312,8 @@ class Intersection:
             for bezierb in beziersb:
                 newpair = Intersection.bcurve_and_bcurve(beziera, bezierb)
                 pairs |= set(newpair)
+        if len(pairs) == 0:
+            return tuple()
         pairs = tuple(pairs)
         pairs = Intersection.filter_pairs(pairs)
         pairs = Intersection.pairs_min_distance(pairs, curvea, curveb)
